@@ -296,7 +296,8 @@ class Weaver:
                 loops.append((k, m, pairs[m]))
             k += 1
         w.loops = len(loops)
-        declared = max(list(unit.loops.keys()) + [a[1] for a in unit.anchors if a[0].startswith("loop_")] + [0])
+        declared = max(list(unit.loops.keys()) + [a[1] for a in unit.anchors if a[0].startswith("loop_")]
+                       + [a[1][0] for a in unit.anchors if a[0].startswith("inloop_")] + [0])
         if unit.nloops is not None and unit.nloops != len(loops):
             raise LostAnchor("unit %s: expected %d loops, source has %d" % (unit.name, unit.nloops, len(loops)))
         if declared > len(loops):
@@ -329,6 +330,16 @@ class Weaver:
                     add_before(kw, text, label)
                 elif kind == "loop_after":
                     add_after(hc, "\n" + text, label)
+            elif kind in ("inloop_before", "inloop_after"):
+                kw, hb, hc = loops[arg[0] - 1]
+                pat = [t.text for t in tokenize(expand(arg[1], ctx))]
+                hits = _find_seq(toks, hb, hc + 1, pat)
+                if len(hits) != 1:
+                    raise LostAnchor("unit %s: anchor %s %r occurs %d times in loop %d" % (unit.name, kind, arg[1], len(hits), arg[0]))
+                if kind == "inloop_before":
+                    add_before(hits[0], text, label)
+                else:
+                    add_after(hits[0] + len(pat) - 1, "\n" + text, label)
             elif kind in ("before", "after"):
                 pat = [t.text for t in tokenize(expand(arg, ctx))]
                 hits = _find_seq(toks, bo, bc + 1, pat)
